@@ -1437,6 +1437,27 @@ theorem C09_stdio_quit_flush (ofd : Nat) (w : W) (c : Cli) (hcap : ¬ capOf w of
                  (capOf w ofd < ((c.toBuf ++ ClientPf.render [ClientPf.item101]).length : Int))] :=
   ⟨(quit_flush ofd w c hcap).1, (quit_flush ofd w c hcap).2.2⟩
 
+/-- **Every request line of the `--stdio` client is answered on the output descriptor, once and in order.**  `_handle_input`
+    for a client whose output is `ofd`: unless the daemon exits (the sort assertion, F19), the stream of the output descriptor
+    — what was written to `ofd` followed by what waits in `to` — grows by exactly one answer chunk per complete line of the
+    input buffer, in the order of the lines; and every system call made on the way (the final flush of `quit`) is on `ofd`. -/
+theorem C09_stdio_answers (ofd : Nat) (w : W) (c : Cli) :
+    ((handleInputIO ofd w c).1.exited = true ∨
+     ∃ chunks : List (List ClientPf.Item), chunks.length = (ClientPf.linesOf c.fromBuf).1.length ∧
+       ClientPf.written (handleInputIO ofd w c).1.sys ofd ++ (handleInputIO ofd w c).2.toBuf =
+         ClientPf.written w.sys ofd ++ c.toBuf ++ ClientPf.render chunks.flatten ∧
+       (∀ ch ∈ chunks, ClientPf.AnswerChunk ch)) ∧
+    (∃ ext, (handleInputIO ofd w c).1.sys = w.sys ++ ext ∧ ∀ s ∈ ext, Isolation.sysFd s = some ofd) ∧
+    (handleInputIO ofd w c).2.fd = c.fd := by
+  obtain ⟨ext, hiso, _⟩ := Isolation.handleInput_iso w { c with fd := ofd }
+  refine ⟨?_, ⟨ext, hiso.sys, hiso.sysfd⟩, rfl⟩
+  rcases ClientPf.handleInput_answers w { c with fd := ofd } with h | ⟨chunks, hl, hout, hch, _⟩
+  · exact Or.inl h
+  · refine Or.inr ⟨chunks, hl, ?_, hch⟩
+    have hfd : (handleInput w { c with fd := ofd }).2.fd = ofd := hiso.fd
+    simp only [ClientPf.outOf, hfd] at hout
+    exact hout
+
 /-- non-vacuity: a client with 5 bytes queued, an output descriptor (1001) that can take 2 of them: all 18 bytes (queue and
     farewell) are written to 1001, none to the input descriptor 1000, and the call is marked as one that sleeps -/
 example :
